@@ -484,6 +484,13 @@ impl<'a, I: InK<'a>> Cfg<'a, I> for CRichCx {
 // ------------------------------------------------------------------------------------------------
 
 thread_local! {
+    /// the recursion handles of the `Rec` nodes currently being built, innermost last; type-erased
+    /// pointers to `BP<'a, I, C>` values that live on the stack of the builder for exactly as long as
+    /// they are on this stack
+    static REC: std::cell::RefCell<Vec<*const ()>> = const { std::cell::RefCell::new(Vec::new()) };
+}
+
+thread_local! {
     /// clone mode (C13): every combinator value is cloned once, the original dropped, and the
     /// *clone* is what gets boxed and used — so each combinator's own `Clone` impl is exercised
     /// (a `Boxed` only clones an `Rc`).
@@ -559,6 +566,10 @@ pub fn probe<'a, I: InK<'a>, C: Cfg<'a, I>>(p: BP<'a, I, C>, pr: Probes) -> BP<'
         v
     })
     .fin()
+}
+
+fn catch_build<'a, I: InK<'a>, C: Cfg<'a, I>>(g: &G, pr: Probes) -> std::thread::Result<BP<'a, I, C>> {
+    std::panic::catch_unwind(std::panic::AssertUnwindSafe(|| build::<I, C>(g, pr)))
 }
 
 pub fn build<'a, I: InK<'a>, C: Cfg<'a, I>>(g: &G, pr: Probes) -> BP<'a, I, C> {
@@ -784,6 +795,41 @@ fn build0<'a, I: InK<'a>, C: Cfg<'a, I>>(g: &G, pr: Probes) -> BP<'a, I, C> {
         SliceWith(a) => I::slice_with::<C>(build::<I, C>(a, pr)),
         SpanWith(a) => build::<I, C>(a, pr).map_with(|_, e| { let (a, b) = e.span().pair(); Val::Sp(a, b) }).fin(),
         Lazy(a) => build::<I, C>(a, pr).lazy().fin(),
+        Rec(body, declare) => {
+            let with_handle = |h: &BP<'a, I, C>| -> BP<'a, I, C> {
+                REC.with(|r| r.borrow_mut().push(h as *const BP<'a, I, C> as *const ()));
+                let p = catch_build::<I, C>(body, pr);
+                REC.with(|r| r.borrow_mut().pop());
+                match p {
+                    Ok(p) => p,
+                    Err(e) => std::panic::resume_unwind(e),
+                }
+            };
+            if *declare {
+                let mut d = Recursive::declare();
+                let h: BP<'a, I, C> = d.clone().boxed();
+                let p = with_handle(&h);
+                d.define(p);
+                d.fin()
+            } else {
+                recursive(|r| {
+                    let h: BP<'a, I, C> = r.boxed();
+                    with_handle(&h)
+                })
+                .fin()
+            }
+        }
+        RecRef(k) => {
+            let ptr = REC.with(|r| {
+                let r = r.borrow();
+                r.get(r.len().wrapping_sub(1 + *k as usize)).copied()
+            });
+            let ptr = ptr.unwrap_or_else(|| unsupported("rec_ref outside rec"));
+            // SAFETY: pushed by the enclosing `Rec` arm of this very instantiation of `build0` (same I, C),
+            // and still on that arm's stack frame
+            let h: &BP<'a, I, C> = unsafe { &*(ptr as *const BP<'a, I, C>) };
+            h.clone()
+        }
         Ext(a, own) => chumsky::extension::v1::Ext(ExtW::<I, C> { inner: build::<I, C>(a, pr), own_check: *own }).fin(),
         CustomNest(a) => {
             let inner = build::<I, C>(a, pr);
